@@ -170,9 +170,13 @@ Qed.
 Lemma bash_unq_chars : unq_chars_ok bash_requiresQuoting_chars = true.
 Proof. vm_compute. reflexivity. Qed.
 
-Lemma bash_unquoted_refuted :
-  exists s, bash_quote None s = s /\ read_bash s = None.
-Proof. exists (B [97;63;98]). split; vm_compute; reflexivity. Qed.
+(* `?` is among the characters that force quoting (regenerated table) *)
+Lemma bash_chars_has_question : mem (byte 63) bash_requiresQuoting_chars = true.
+Proof. vm_compute. reflexivity. Qed.
+Lemma no_question wb s : contains_any s (bash_requiresQuoting_chars ++ wb) = false -> ~ In (byte 63) s.
+Proof.
+  intros H Hin. rewrite contains_any_false in H. apply (H _ Hin). apply in_or_app. left. apply mem_In. exact bash_chars_has_question.
+Qed.
 
 (* ================================================================== zsh *)
 (* layer 1: what _describe undoes *)
